@@ -862,6 +862,7 @@ func init() {
 				cfg := cfg
 				sh = append(sh, vShard{Name: "c09/faults/" + strings.ReplaceAll(cfg.String(), " ", ","), Run: func(c *vCtx) { vC09FaultSweep(c, cfg) }})
 			}
+			sh = append(sh, vSchedShards("C09", tier)...)
 			sh = append(sh, vShard{Name: "c09/dirnames", Run: vC09DirNames})
 			sh = append(sh, vShard{Name: "c09/segment-identifiers", Run: func(c *vCtx) { vC09Identifiers(c, limit) }})
 			return sh
